@@ -387,9 +387,12 @@ func (b *argBuilder) graph(log hclog.Logger, g *graph.Graph, root graph.Vertex) 
 				continue
 			}
 
-			// Go through each generator and create the converter.
-			for _, gen := range b.convGens {
-				f, err := gen(*value)
+			// Go through each generator and create the converter. Like the
+			// converters themselves, generators given later take precedence
+			// (the first function of a type to enter the graph stays), so
+			// that one given to Call overrides a default of the Func.
+			for i := len(b.convGens) - 1; i >= 0; i-- {
+				f, err := b.convGens[i](*value)
 				if err != nil {
 					return nil, nil, err
 				}
